@@ -291,3 +291,54 @@ func Hex(b []byte) string {
 	}
 	return sb.String()
 }
+
+// Scribble overwrites, in place, every exported leaf reachable from *ptr
+// (through pointers, interfaces holding pointers, slices and arrays): bools
+// are negated, integers complemented. Pointers and slices themselves are kept,
+// so the writes land in whatever memory the value refers to - which is the
+// point: memory shared with another value shows up as a change of that value.
+func Scribble(ptr interface{}) {
+	seen := map[uintptr]bool{}
+	scribble(reflect.ValueOf(ptr), seen, 0)
+}
+
+func scribble(rv reflect.Value, seen map[uintptr]bool, depth int) {
+	if depth > 40 {
+		return
+	}
+	switch rv.Kind() {
+	case reflect.Ptr:
+		if rv.IsNil() || seen[rv.Pointer()] {
+			return
+		}
+		seen[rv.Pointer()] = true
+		scribble(rv.Elem(), seen, depth+1)
+	case reflect.Interface:
+		if !rv.IsNil() {
+			scribble(rv.Elem(), seen, depth+1)
+		}
+	case reflect.Struct:
+		for i := 0; i < rv.NumField(); i++ {
+			if rv.Type().Field(i).PkgPath != "" {
+				continue
+			}
+			scribble(rv.Field(i), seen, depth+1)
+		}
+	case reflect.Slice, reflect.Array:
+		for i := 0; i < rv.Len(); i++ {
+			scribble(rv.Index(i), seen, depth+1)
+		}
+	case reflect.Bool:
+		if rv.CanSet() {
+			rv.SetBool(!rv.Bool())
+		}
+	case reflect.Int, reflect.Int8, reflect.Int16, reflect.Int32, reflect.Int64:
+		if rv.CanSet() {
+			rv.SetInt(^rv.Int())
+		}
+	case reflect.Uint, reflect.Uint8, reflect.Uint16, reflect.Uint32, reflect.Uint64:
+		if rv.CanSet() {
+			rv.SetUint(^rv.Uint() & (1<<uint(rv.Type().Bits()) - 1))
+		}
+	}
+}
